@@ -58,6 +58,20 @@ Definition validate_sig (v r s : N) (homestead : bool) : bool :=
   else if homestead && (secp_half_n <? s) then false
   else (r <? secp_n) && (s <? secp_n).
 
+(* ---- which signer the node applies (params/config.go isForked, IsHomestead, IsEIP155;
+   types.MakeSigner; core.NewTxPool) ---- *)
+Record chain_cfg := mkCfg { cc_chain_id : N; cc_homestead : option N; cc_eip155 : option N }.
+(* isForked(s, head): a nil fork block is never active *)
+Definition is_forked (s : option N) (head : N) : bool :=
+  match s with Some b => b <=? head | None => false end.
+(* types.MakeSigner(config, blockNumber): used by ApplyTransaction / StateProcessor *)
+Definition make_signer (cfg : chain_cfg) (num : N) : signer :=
+  if is_forked (cc_eip155 cfg) num then EIP155 (cc_chain_id cfg)
+  else if is_forked (cc_homestead cfg) num then Homestead
+  else Frontier.
+(* core.NewTxPool: signer: types.NewEIP155Signer(chainconfig.ChainId), whatever the height *)
+Definition pool_signer (cfg : chain_cfg) : signer := EIP155 (cc_chain_id cfg).
+
 (* ---- what is hashed ---- *)
 Definition uint_item (n : N) : item := Str (be_of_N n).
 (* *common.Address inside []interface{} / with `rlp:"nil"`: nil -> 0x80 *)
